@@ -15,7 +15,7 @@ M3  calls and delivered replies are validated by TLC against spec/PD/PDAllocProp
 import json, os, sys, re, subprocess
 sys.path.insert(0, os.path.join(os.path.dirname(os.path.abspath(__file__)), "..", "lib"))
 from vlib import *
-from vpar import validate_traces_parallel
+from vpar import validate_traces_parallel, fast_tmp
 
 GEN = """SPECIFICATION Spec
 CONSTANTS
@@ -75,11 +75,12 @@ def run_driver(ctx, scheds):
         if not part:
             continue
         d = ctx.mkdtemp("drv")
+        work = fast_tmp(ctx, "work")
         inp, outp = os.path.join(d, "in.ndjson"), os.path.join(d, "out.ndjson")
         with open(inp, "w") as fh:
             for s in part:
                 fh.write(json.dumps(s) + "\n")
-        p = subprocess.Popen([binp, "-nokv", nokv, "-in", inp, "-out", outp, "-dir", d], stdout=subprocess.PIPE, stderr=subprocess.STDOUT, text=True)
+        p = subprocess.Popen([binp, "-nokv", nokv, "-in", inp, "-out", outp, "-dir", work], stdout=subprocess.PIPE, stderr=subprocess.STDOUT, text=True)
         procs.append((p, outp))
     traces = {}
     for p, outp in procs:
